@@ -353,10 +353,13 @@ def execute(ctx, op, seed_of=None):
             init, ow = s.generate_hilbert_space(), True
         elif op["init"] and not ow and r.random() < 0.6:
             init = _held(ctx, max(op["n"], 1))
+        dflt = dict(num_samples=1, initial_state=None, overwrite=False)      # the published defaults, left out as often as passed
         if o == "Sample":
-            return s.sample(k=op["k"], num_samples=op["n"], initial_state=init, overwrite=ow)
+            return common.api_call(s.sample, ["k", "num_samples", "initial_state", "overwrite"],
+                                   dict(k=op["k"], num_samples=op["n"], initial_state=init, overwrite=ow), defaults=dflt)
         obs = r.choice([SigmaZ(), SigmaX(), NeighbourInteraction(periodic_bcs=True)])
-        return obs.sample(s, op["k"], num_samples=op["n"], initial_state=init, overwrite=ow)
+        return common.api_call(obs.sample, ["k", "num_samples", "initial_state", "overwrite"],
+                               dict(k=op["k"], num_samples=op["n"], initial_state=init, overwrite=ow), first=(s,), defaults=dflt)
     if o == "Stats":
         chains = r.randint(2, 4)
         T = op["e"]
@@ -365,9 +368,10 @@ def execute(ctx, op, seed_of=None):
         kw = dict(num_chains=chains, burn_in=op["k"], steps=op["n"], initial_state=init, overwrite=r.random() < 0.5)
         if op["init"] and not kw["overwrite"] and r.random() < 0.6:
             kw["initial_state"] = _held(ctx, chains)
-        if op["f"] == "sys":
-            return System(SigmaZ(), SigmaX()).statistics(s, num_samples, **kw)
-        return r.choice([SigmaZ(), SigmaY(), NeighbourInteraction(periodic_bcs=True)]).statistics(s, num_samples, **kw)
+        target = System(SigmaZ(), SigmaX()) if op["f"] == "sys" else r.choice([SigmaZ(), SigmaY(), NeighbourInteraction(periodic_bcs=True)])
+        return common.api_call(target.statistics, ["num_samples", "num_chains", "burn_in", "steps", "initial_state", "overwrite"],
+                               dict(kw, num_samples=num_samples), first=(s,),
+                               defaults=dict(num_chains=0, burn_in=1000, steps=1, initial_state=None, overwrite=False))
     if o == "Eval":
         return _eval(ctx, op, r)
     if o == "BatchGrads":
